@@ -1014,4 +1014,14 @@ theorem remapRow_nonneg (src dst : List Nat) (row out : Vec) (h : remapRow src d
   · exact hn _ h1
   · rw [h1]
 
+/-! ### definitional unfoldings (kept out of the property file) -/
+
+/-- `SeriesReaction._reaction` is a fold: the head reacts first, the tail sees its result -/
+theorem series_uses_running (rx : Rxn) (rxs : List Rxn) (n : Vec) :
+    reactSeries (rx :: rxs) n = reactSeries rxs (rx.react n) := rfl
+
+/-- `ReactionSystem._reaction` is a fold over the members -/
+theorem system_uses_running (m : Member) (ms : List Member) (n : Vec) :
+    reactSystem (m :: ms) n = reactSystem ms (m.react n) := rfl
+
 end ThermoVerif.Reaction
